@@ -127,22 +127,26 @@ def r31(ctx, core, enc, comp):
 
 
 def r32(ctx, core):
-    loads = set()
-    for m in ctx.repo.modules.values():
-        if m.name in ('writer',):
-            continue
-        for n in ast.walk(m.tree):
-            if isinstance(n, ast.Attribute) and isinstance(n.ctx, ast.Load) and n.attr in (
-                    'definition_level_encoding', 'repetition_level_encoding'):
-                loads.add((m.name, n.attr))
-    if not loads:
-        ctx.note('R3.2 note: the v1 header fields definition_level_encoding / repetition_level_encoding are never read; level '
-                 'streams are always decoded as RLE/bit-packed hybrid. A file using the deprecated BIT_PACKED level encoding '
-                 'would not be refused (no such file could be produced here to witness the outcome; recorded as a note)')
-    callers = [c for c in ast.walk(core.tree) if isinstance(c, ast.Call) and callee(c) == 'read_data']
-    ctx.ob('R3.2', 'core:level-readers-request-the-hybrid-coding',
-           len(callers) == 2 and all(norm(c.args[1]) == 'parquet_thrift.Encoding.RLE' for c in callers),
-           str([norm(c.args[1]) for c in callers]), 'fastparquet/core.py:1', nontrivial=False)
+    """level streams of a v1 page are decoded by the coding the page header declares: each level reader hands
+    `daph.<kind>_level_encoding` to read_data, whose dispatch accepts RLE and ends in a raise - a page declaring the
+    deprecated BIT_PACKED level encoding (no length prefix) is refused instead of being read as a hybrid stream"""
+    want = {'read_def': 'daph.definition_level_encoding', 'read_rep': 'daph.repetition_level_encoding'}
+    n = 0
+    for q, field in want.items():
+        f = core.func(q)
+        callers = [c for c in ast.walk(f) if isinstance(c, ast.Call) and callee(c) == 'read_data']
+        n += len(callers)
+        ok = len(callers) == 1 and len(callers[0].args) >= 2 and norm(callers[0].args[1]) == field
+        ctx.ob('R3.2', 'core.%s:levels-decoded-by-the-coding-the-page-declares' % q, ok,
+               'read_data(io, %s, ...): a constant coding here reads a BIT_PACKED level block (legal in old files) as a '
+               'length-prefixed hybrid stream and returns wrong nulls without an error' % (
+                   norm(callers[0].args[1]) if callers and len(callers[0].args) >= 2 else '?'), core.loc(f))
+    ctx.floor('R3.2', 'level decode sites (v1)', n, 2)
+    rd = core.func('read_data')
+    chain = [st for st in rd.body if isinstance(st, ast.If) and 'coding' in norm(st.test)]
+    ok = len(chain) == 1 and norm(chain[0].test) == 'coding == parquet_thrift.Encoding.RLE' and _chain_ends_in_raise(chain[0])
+    ctx.ob('R3.2', 'core.read_data:only-RLE-accepted-everything-else-raises', ok,
+           'dispatch `%s` must end in a raise' % (norm(chain[0].test) if chain else '?'), core.loc(rd))
 
 
 def r33(ctx, core, api):
